@@ -16,5 +16,5 @@ Extraction "extracted/c13/model.ml"
   AdfWalk.walk AdfWalk.cksum AdfWalk.LINK_FUEL AdfWalk.snt_count AdfWalk.dct_count
   AdfWalk.wit_valid AdfWalk.wit_oobw AdfWalk.wit_oobr AdfWalk.wit_cycle AdfWalk.wit_linkrec AdfWalk.wit_biglink
   AdfWalk.wit_abort AdfWalk.wit_tagscan AdfWalk.wit_stale AdfWalk.wit_dct AdfWalk.wit_neglink AdfWalk.wit_hugelink
-  AdfWalk.wit_toklink AdfWalk.wit_longfile AdfWalk.wit_longpath AdfWalk.wit_nosep AdfWalk.wit_fmtneg AdfWalk.wit_dtov AdfWalk.wit_rtype AdfWalk.wit_dim AdfWalk.wit_sizes AdfWalk.wit_radset AdfWalk.wit_radneg
+  AdfWalk.wit_toklink AdfWalk.wit_longfile AdfWalk.wit_longpath AdfWalk.wit_nosep AdfWalk.wit_ver AdfWalk.database_version AdfWalk.wit_fmtneg AdfWalk.wit_dtov AdfWalk.wit_rtype AdfWalk.wit_dim AdfWalk.wit_sizes AdfWalk.wit_radset AdfWalk.wit_radneg
   AdfCodec.legacy AdfCodec.repaired AdfWalk.get_node_id_top.
